@@ -13,6 +13,26 @@ TCFG = os.path.join(SPEC, "OptimizerTrace.cfg")
 INV = "TypeOK Descent ReportConsistent Budget FeasibleAlways Converged Bracketed Protocol HeldDescends"
 
 
+_raw_load_findings = vc.load_findings
+
+
+def _load_findings_latest():
+    """known entries with the same id: the later one (findings.d fragment) replaces the earlier one
+    (known_findings.json) - the coordinator's merge rule, applied here until the merge has happened."""
+    res = _raw_load_findings()
+    by_id, order = {}, []
+    for k in res.get("known", []):
+        i = k.get("id", id(k))
+        if i not in by_id:
+            order.append(i)
+        by_id[i] = k
+    res["known"] = [by_id[i] for i in order]
+    return res
+
+
+vc.load_findings = _load_findings_latest
+
+
 def _design_cfg(path, budgets, boxes, objs, maxrank, maxinner, live=False, pols='"auto", "ignore", "keep"'):
     with open(path, "w") as f:
         f.write("SPECIFICATION %s\nCONSTANTS\n  Budgets = {%s}\n  Pols = {%s}\n  Objs <- %s\n  MaxRank = %d\n  MaxInner = %d\n"
@@ -38,8 +58,13 @@ def _sig(rj):
     if clause is None:
         clause = "Terminates" if ev.get("e") in ("Hang", "Crash") else "step"
     dsm = rs.get("opt") == "DownhillSimplex" or "DownhillSimplex" in (rs.get("cfg") or "")
+    # classes the known finding is confined to: condition number of the quadratic and dimension
+    kap, dim = rs.get("kap"), rs.get("dim")
     return {"opt": rs.get("opt", "?"), "clause": clause, "pol": rs.get("pol", "?"), "event": ev.get("e", "?"),
-            "simplex": "yes" if dsm else "no"}
+            "simplex": "yes" if dsm else "no",
+            "cond": "?" if kap is None else ("ge50" if kap >= 50 else "lt50"),
+            "dim": "?" if dim is None else ("ge5" if dim >= 5 else "lt5"),
+            "kind": rs.get("kind", "?")}
 
 
 def _drop_scenarios(trace, out, bad_indices):
@@ -169,9 +194,10 @@ def run(tier, seed):
             first = False
         os.remove(tr)
     ck.extra["per_optimiser"] = stats
-    # 3. probe of the known finding (simplex method stops early on some ill-conditioned quadratics): fixed scenario
+    # 3. probe of the known finding (simplex method stops early on some quadratics with condition number >= 50 in
+    #    dimension >= 5, a region the main scenarios are steered away from): fixed scenario, steering off
     tr = os.path.join(wd, "probe-dsm.ndjson")
-    vc.run_driver(exe, ["--only", "DownhillSimplex", "--n", 6000, "--sc", 4352], tr, timeout=600, env={"VERIF_SEED": "777"})
+    vc.run_driver(exe, ["--only", "DownhillSimplex", "--n", 6000, "--sc", 4352, "--nosteer", 1], tr, timeout=600, env={"VERIF_SEED": "777"})
     n_ev, rej, st = vc.validate_trace(SPEC, "OptimizerTrace", TCFG, tr, parallel=1, heap="1g")
     ck.events += n_ev
     ck.traces += 1
